@@ -253,6 +253,16 @@ func cmdCheck(args []string) int {
 		fmt.Fprintln(os.Stderr, "overlay:", err)
 		return 2
 	}
+	if dirs["aucoalesce"] {
+		// table image of the YAML-driven normalisation tables, regenerated natively from the current tree
+		img, err := genTableImage(workDir)
+		if err != nil {
+			fmt.Println("INCONCLUSIVE: cannot generate the aucoalesce table image:", err)
+			writeEvidenceFailure(prop, tier, seed, "table image: "+err.Error(), time.Since(t0))
+			return 2
+		}
+		ovPaths[filepath.Join(repoDir, "aucoalesce", "zz_verif_tables_image.go")] = img
+	}
 	overlay := map[string][]byte{}
 	for virt, real := range ovPaths {
 		c, err := os.ReadFile(real)
@@ -392,4 +402,28 @@ func runCmd(dir string, timeout time.Duration, env []string, name string, args .
 		<-done
 		return string(out), fmt.Errorf("timeout after %v", timeout)
 	}
+}
+
+// genTableImage runs the native helper that dumps aucoalesce's normalisation tables as Go source.
+func genTableImage(workDir string) (string, error) {
+	src, err := os.ReadFile(filepath.Join(verifDir, "harness", "tablegen", "zz_verif_tablegen_test.go.txt"))
+	if err != nil {
+		return "", err
+	}
+	genPath := filepath.Join(workDir, "tablegen_test.go")
+	if err := os.WriteFile(genPath, src, 0o644); err != nil {
+		return "", err
+	}
+	ovFile := filepath.Join(workDir, "overlay_tablegen.json")
+	writeJSON(ovFile, map[string]interface{}{"Replace": map[string]string{filepath.Join(repoDir, "aucoalesce", "zz_verif_tablegen_test.go"): genPath}})
+	img := filepath.Join(workDir, "tables_image.go")
+	env := append(goEnv(), "VERIF_TABLE_IMAGE="+img)
+	out, err := runCmd(filepath.Join(repoDir, "aucoalesce"), 5*time.Minute, env, "go", "test", "-vet=off", "-count=1", "-overlay", ovFile, "-run", "^TestVerifTableGen$", ".")
+	if err != nil {
+		return "", fmt.Errorf("%v: %s", err, trimOut(out))
+	}
+	if _, err := os.Stat(img); err != nil {
+		return "", fmt.Errorf("helper did not write the image: %s", trimOut(out))
+	}
+	return img, nil
 }
